@@ -13,6 +13,7 @@ import Fdo.Drv.Chunk
 import Fdo.Drv.Rv
 import Fdo.Drv.Fsim
 import Fdo.Drv.Store
+import Fdo.Drv.Endpoint
 /-
 Line-protocol driver: one operation per input line, one reply per output line.
 Imports model modules only (no proofs, no Mathlib) so that it links as a `lean_exe`.
@@ -36,6 +37,7 @@ def handlers : List (String × (String → List String → Option String)) := [
   ("rv.", Drv.Rv.handle),
   ("fsim.", Drv.Fsim.handle),
   ("store.", Drv.Store.handle),
+  ("c10.", Drv.Endpoint.handle),
 ]
 
 def dispatch (line : String) : String :=
